@@ -19,6 +19,8 @@ pub enum Ev {
     QueueBlock { node: usize, inc: u64, block: validator::Block, want: validator::BlockNumber },
     Step { node: usize, inc: u64, kind: StepKind, snap: Snapshot },
     Restart { node: usize, inc: u64, durable: validator::ReplicaState },
+    /// handing a message to the node's inbound queue panicked (in production: inside the network handler task)
+    InboundPanic { node: usize, location: String, message: String },
 }
 
 #[derive(Debug, Default)]
